@@ -27,21 +27,26 @@ def WFneeded (rs : List Resource) (nb : List (Addr × List Addr)) : Prop :=
 /-- `NeededBalances[a]` contains `x` -/
 def InNeeded (nb : List (Addr × List Addr)) (a x : Addr) : Prop := ∃ e ∈ nb, e.1 = a ∧ x ∈ e.2
 
+/-- constants are de-duplicated: no constant equals (by `ValueEquals`) an earlier one -/
+def NoDupConst (rs : List Resource) : Prop :=
+  ∀ (i j : Nat) (c d : BVal), i < j → rs[i]? = some (.const c) → rs[j]? = some (.const d) → valueEquals c d = false
+
 /-- `st'` extends `st`: the resource table grew by literals only, the variable index is unchanged, the
-well-formedness of the tables is kept, and no needed balance is forgotten -/
+well-formedness of the tables is kept, no needed balance is forgotten, constants stay de-duplicated -/
 structure Ext (st st' : CState) : Prop where
   res : ∃ suf, st'.resources = st.resources ++ suf ∧ ∀ r ∈ suf, r.isLit = true
   vars : st'.varIdx = st.varIdx
   wf : WFres st.resources → WFres st'.resources
   wfn : WFneeded st.resources st.needed → WFneeded st'.resources st'.needed
   mono : ∀ a x, InNeeded st.needed a x → InNeeded st'.needed a x
+  nodup : NoDupConst st.resources → NoDupConst st'.resources
 
-theorem Ext.refl (st : CState) : Ext st st := ⟨⟨[], by simp⟩, rfl, id, id, fun _ _ h => h⟩
+theorem Ext.refl (st : CState) : Ext st st := ⟨⟨[], by simp⟩, rfl, id, id, fun _ _ h => h, id⟩
 
 theorem Ext.trans {a b c : CState} (h1 : Ext a b) (h2 : Ext b c) : Ext a c := by
-  obtain ⟨⟨s1, e1, l1⟩, v1, w1, n1, m1⟩ := h1
-  obtain ⟨⟨s2, e2, l2⟩, v2, w2, n2, m2⟩ := h2
-  refine ⟨⟨s1 ++ s2, by rw [e2, e1, List.append_assoc], ?_⟩, v2.trans v1, w2 ∘ w1, n2 ∘ n1, fun a x h => m2 a x (m1 a x h)⟩
+  obtain ⟨⟨s1, e1, l1⟩, v1, w1, n1, m1, d1⟩ := h1
+  obtain ⟨⟨s2, e2, l2⟩, v2, w2, n2, m2, d2⟩ := h2
+  refine ⟨⟨s1 ++ s2, by rw [e2, e1, List.append_assoc], ?_⟩, v2.trans v1, w2 ∘ w1, n2 ∘ n1, fun a x h => m2 a x (m1 a x h), d2 ∘ d1⟩
   intro r hr
   rcases List.mem_append.mp hr with h | h
   · exact l1 r h
@@ -80,7 +85,7 @@ theorem WFneeded.append {rs : List Resource} {nb : List (Addr × List Addr)} (h 
 /-- a state change that leaves resources, variables and needed balances alone -/
 theorem Ext.of_eq {st st' : CState} (hr : st'.resources = st.resources) (hv : st'.varIdx = st.varIdx)
     (hn : st'.needed = st.needed) : Ext st st' :=
-  ⟨⟨[], by simp [hr]⟩, hv, by rw [hr]; exact id, by rw [hr, hn]; exact id, by rw [hn]; exact fun _ _ h => h⟩
+  ⟨⟨[], by simp [hr]⟩, hv, by rw [hr]; exact id, by rw [hr, hn]; exact id, by rw [hn]; exact fun _ _ h => h, by rw [hr]; exact id⟩
 
 theorem Ext.addSources (st : CState) (l : List Addr) : Ext st (addSources st l) :=
   Ext.of_eq rfl rfl rfl
@@ -160,7 +165,7 @@ theorem setNeeded_mem (st : CState) {l : List Addr} (addr : Addr) {acc : Addr} (
 theorem Ext.setNeeded (st : CState) (l : List Addr) (a : Addr)
     (hl : ∀ x ∈ l, HasTy st.resources x .account) (ha : HasTy st.resources a .asset ∨ HasTy st.resources a .monetary) :
     Ext st (setNeeded st l a) := by
-  refine ⟨⟨[], by simp [Num.setNeeded]⟩, rfl, id, ?_, fun _ _ h => foldl_setNeeded1_mono h⟩
+  refine ⟨⟨[], by simp [Num.setNeeded]⟩, rfl, id, ?_, fun _ _ h => foldl_setNeeded1_mono h, id⟩
   intro h
   show WFneeded st.resources (l.foldl (fun nb acc => setNeeded1 nb acc a) st.needed)
   generalize st.needed = nb at h
@@ -263,11 +268,31 @@ theorem allocRes_ok {st st' : CState} {r : Resource} {a : Addr} (hl : r.isLit = 
     Ext st st' ∧ (∃ r', st'.resources[a]? = some r' ∧
       (match r with | .const v => ∃ c, r' = .const c ∧ valueEquals c v = true | _ => r' = r)) := by
   unfold allocRes at h
-  have app : ∀ {st'}, appendResource st r = .ok (a, st') → Ext st st' ∧ st'.resources[a]? = some r := by
-    intro st' h
+  have app : ∀ {st'}, (∀ v, r = .const v → findConstant st.resources v = none) →
+      appendResource st r = .ok (a, st') → Ext st st' ∧ st'.resources[a]? = some r := by
+    intro st' hfn h
     obtain ⟨ha, hs⟩ := appendResource_ok h
     subst ha; subst hs
-    exact ⟨⟨⟨[r], rfl, by simpa using hl⟩, rfl, fun w => w.append_lit hl hw, fun w => w.append _, fun _ _ h => h⟩, by simp⟩
+    refine ⟨⟨⟨[r], rfl, by simpa using hl⟩, rfl, fun w => w.append_lit hl hw, fun w => w.append _, fun _ _ h => h, ?_⟩, by simp⟩
+    intro hnd i j c d hij hi hj
+    rcases Nat.lt_or_ge j st.resources.length with hjl | hjl
+    · rw [List.getElem?_append_left hjl] at hj
+      rw [List.getElem?_append_left (Nat.lt_trans hij hjl)] at hi
+      exact hnd i j c d hij hi hj
+    · rw [List.getElem?_append_right hjl] at hj
+      have hj0 : j - st.resources.length = 0 := by
+        rcases Nat.eq_zero_or_pos (j - st.resources.length) with h0 | h0
+        · exact h0
+        · rw [List.getElem?_eq_none (by simp only [List.length_cons, List.length_nil]; omega)] at hj; cases hj
+      rw [hj0] at hj
+      simp only [List.getElem?_cons_zero, Option.some.injEq] at hj
+      have hil : i < st.resources.length := by omega
+      rw [List.getElem?_append_left hil] at hi
+      have hfn' := hfn d hj
+      unfold findConstant at hfn'
+      rw [List.findIdx?_eq_none_iff] at hfn'
+      have := hfn' _ (List.mem_of_getElem? hi)
+      simpa [isConstEq] using this
   cases r with
   | const v =>
     simp only at h
@@ -279,9 +304,9 @@ theorem allocRes_ok {st st' : CState} {r : Resource} {a : Addr} (hl : r.isLit = 
       exact ⟨Ext.refl _, _, hc, c, rfl, he⟩
     | none =>
       simp only [hf] at h
-      obtain ⟨he, hg⟩ := app h
+      obtain ⟨he, hg⟩ := app (by intro v' hv'; cases hv'; exact hf) h
       exact ⟨he, _, hg, v, rfl, valueEquals_refl v⟩
-  | monetary x n => obtain ⟨he, hg⟩ := app h; exact ⟨he, _, hg, rfl⟩
+  | monetary x n => obtain ⟨he, hg⟩ := app (by intro v' hv'; cases hv') h; exact ⟨he, _, hg, rfl⟩
   | var _ _ => simp [Resource.isLit] at hl
   | varMeta _ _ _ _ => simp [Resource.isLit] at hl
   | varBalance _ _ _ => simp [Resource.isLit] at hl
